@@ -79,7 +79,7 @@ structure Dec where
   neg : Bool
   digits : Nat
   exp10 : Int
-  deriving Repr
+  deriving Repr, DecidableEq
 
 def Dec.toBits (d : Dec) : Nat :=
   let mag := if d.exp10 ≥ 0 then magOfRat (d.digits * 10 ^ d.exp10.toNat) 1
@@ -91,6 +91,7 @@ inductive Parsed where
   | inf (neg : Bool)
   | nan (neg : Bool)
   | bad
+  deriving DecidableEq
 
 def isDigit (c : Char) : Bool := '0' ≤ c && c ≤ '9'
 def digitVal (c : Char) : Nat := c.toNat - '0'.toNat
@@ -121,22 +122,21 @@ def parseExp (cs : List Char) : Option (Int × List Char) :=
     else none
   | [] => none
 
-/-- Rust's `f64::from_str` grammar: [+-]? (inf | infinity | nan | digits [. digits*] | . digits+) exp? -/
-def parseRust (s : String) : Parsed :=
-  let cs := s.toList
-  let (neg, cs) := match cs with
-    | '-' :: r => (true, r)
-    | '+' :: r => (false, r)
-    | r => (false, r)
+/-- the text after a leading `.`, if there is one -/
+def splitDot : List Char → Option (List Char)
+  | c :: r => if c == '.' then some r else none
+  | [] => none
+
+/-- Rust's `f64::from_str` grammar after the sign: (inf | infinity | nan | digits [. digits*] | . digits+) exp? -/
+def rustBody (neg : Bool) (cs : List Char) : Parsed :=
   let lw := lower cs
   if lw == "inf" || lw == "infinity" then .inf neg
   else if lw == "nan" then .nan neg
   else
     let (ip, rest) := takeDigits cs
-    let (fp, rest, hadDot) := match rest with
-      | '.' :: r => let (f, r') := takeDigits r; (f, r', true)
-      | r => ([], r, false)
-    let _ := hadDot
+    let (fp, rest) := match splitDot rest with
+      | some r => takeDigits r
+      | none => ([], rest)
     if ip.isEmpty && fp.isEmpty then .bad
     else
       let mant := digitsToNat (ip ++ fp)
@@ -147,19 +147,22 @@ def parseRust (s : String) : Parsed :=
         | some (e, []) => .num ⟨neg, mant, base + e⟩
         | _ => .bad
 
-/-- JSON number grammar (RFC 8259): -? (0 | [1-9] digits*) (. digits+)? ([eE] [+-]? digits+)? -/
-def parseJson (s : String) : Parsed :=
-  let cs := s.toList
-  let (neg, cs) := match cs with
-    | '-' :: r => (true, r)
-    | r => (false, r)
+/-- Rust's `f64::from_str` grammar: [+-]? then `rustBody` -/
+def parseRust (s : String) : Parsed :=
+  match s.toList with
+  | '-' :: r => rustBody true r
+  | '+' :: r => rustBody false r
+  | r => rustBody false r
+
+/-- JSON number grammar after the sign: (0 | [1-9] digits*) (. digits+)? ([eE] [+-]? digits+)? -/
+def jsonBody (neg : Bool) (cs : List Char) : Parsed :=
   let (ip, rest) := takeDigits cs
   if ip.isEmpty then .bad
   else if ip.length > 1 && ip.head! == '0' then .bad
   else
-    let frac : Option (List Char × List Char) := match rest with
-      | '.' :: r => let (f, r') := takeDigits r; if f.isEmpty then none else some (f, r')
-      | r => some ([], r)
+    let frac : Option (List Char × List Char) := match splitDot rest with
+      | some r => if (takeDigits r).1.isEmpty then none else some (takeDigits r)
+      | none => some ([], rest)
     match frac with
     | none => .bad
     | some (fp, rest) =>
@@ -170,6 +173,12 @@ def parseJson (s : String) : Parsed :=
       | _ => match parseExp rest with
         | some (e, []) => .num ⟨neg, mant, base + e⟩
         | _ => .bad
+
+/-- JSON number grammar (RFC 8259): -? then `jsonBody` -/
+def parseJson (s : String) : Parsed :=
+  match s.toList with
+  | '-' :: r => jsonBody true r
+  | r => jsonBody false r
 
 /-- bits of a parsed literal; huge exponents saturate without computing 10^e -/
 def Parsed.bits? : Parsed → Option Nat
